@@ -65,6 +65,9 @@ fn one_slice(rep: &mut Report, rec: &mut Rec, len: usize, a: Option<i64>, b: Opt
     };
     if shown == want {
         rep.count("agree_slice");
+        if rep.samples.len() < 8 && shown.len() > 4 && (a.is_some() || b.is_some()) && rep.evaluations % 37 == 0 {
+            rep.sample(json!({"expression": text, "array_length": len, "result": shown}));
+        }
         let clamped = a.map_or(false, |x| x.abs() as usize > len) || b.map_or(false, |x| x.abs() as usize > len);
         if shown.len() > 2 || clamped {
             rep.nontrivial(refimpl::rng::fnv(format!("{} {:?} {:?} {:?}", len, a, b, c).as_bytes()));
